@@ -47,3 +47,16 @@ Example C15_example :
   | None => False
   end.
 Proof. vm_compute. reflexivity. Qed.
+
+(* the interval search of the `gradient` stage, with the comparison operators re-extracted from the lowp and highp sources on
+   every run: all 16 + 8 lanes count the stops with ">=", so on sorted stops the count k selects the half-open interval
+   [t_k, t_k+1) containing t -- at a hard stop the colour on its right -- identically in both pipelines *)
+From Coq Require Import String.
+From TS Require Import Gen.GradientStage Proofs.GradientSearch.
+Theorem C15_gradient_search_right_continuous :
+  List.length lowp_gradient_cmps = 16%nat /\ List.length highp_gradient_cmps = 8%nat /\
+  (forall op, List.In op (lowp_gradient_cmps ++ highp_gradient_cmps) -> op = ">="%string) /\
+  (forall op tail t, List.In op (lowp_gradient_cmps ++ highp_gradient_cmps) -> sortedQ tail ->
+     let k := lane_index op tail t in
+     (forall x, List.In x (List.firstn k tail) -> (x <= t)%Q) /\ (forall x, List.In x (List.skipn k tail) -> (t < x)%Q)).
+Proof. exact gradient_search_right_continuous. Qed.
